@@ -640,7 +640,17 @@ def interval_from_guards(fn, site, expr, lo=-INF, hi=INF, match=None):
             c = l.strip(casts=True).value
             op = {'<': '>', '>': '<', '<=': '>=', '>=': '<=', '==': '==', '!=': '!='}[op]
         else:
-            continue
+            # linear guard:  x + a  op  b   (a, b constants)  ->  x  op  b - a
+            try:
+                sy = lambda y: 'X#' if match(y) else y.text()
+                dl = linear(l, sym=sy) - linear(r, sym=sy)
+            except Exception:
+                continue
+            if set(dl.t) != {'X#'} or dl.t['X#'] not in (1, -1):
+                continue
+            c = -dl.c * dl.t['X#']
+            if dl.t['X#'] == -1:
+                op = {'<': '>', '>': '<', '<=': '>=', '>=': '<=', '==': '==', '!=': '!='}[op]
         if not pol:
             op = {'<': '>=', '>': '<=', '<=': '>', '>=': '<', '==': '!=', '!=': '=='}[op]
         if op == '<':
